@@ -48,7 +48,15 @@ impl BlockFormatter for BlockIndentRemover {
             Some(pos) => start_byte_pos - pos - 1,
             None => 0,
         };
-        let mut current_pos = start_byte_pos + 1;
+        // The first line of the block starts behind the line break that ends the seam's line. The seam is
+        // normally followed by that line break itself, but not when a removed child reached past it.
+        let mut current_pos = match bytes
+            .get(start_byte_pos..)
+            .and_then(|rest| rest.iter().position(|b| *b == b'\n'))
+        {
+            Some(offset) => start_byte_pos + offset + 1,
+            None => return vec![],
+        };
         let first_indent_len = get_indent_len(content, current_pos);
         let indent_len = first_indent_len.saturating_sub(indent_ofs);
 
